@@ -338,6 +338,67 @@ type stressObs struct {
 	Lost     int    `json:"lost_updates"`
 }
 
+// stringSet: Goroutines goroutines add Counter values each to one catalog.StringSet (half of the values shared by all,
+// half their own) next to readers; afterwards every value is there exactly once, in Data and in Len
+func stringSet(c omapCase, emit func(interface{})) {
+	o := &stressObs{ID: c.ID, Kind: c.Kind}
+	g := c.Goroutines
+	if g < 2 {
+		g = 4
+	}
+	n := c.Counter
+	if n < 1 {
+		n = 200
+	}
+	set := &catalog.StringSet{}
+	var wg sync.WaitGroup
+	var stop int32
+	for r := 0; r < 2; r++ {
+		go func() {
+			for atomic.LoadInt32(&stop) == 0 {
+				set.Has("shared-1")
+				set.Len()
+				_ = set.Data()
+			}
+		}()
+	}
+	for i := 0; i < g; i++ {
+		wg.Add(1)
+		go func(i int) {
+			defer wg.Done()
+			for k := 0; k < n; k++ {
+				if k%2 == 0 {
+					set.Add("shared-" + itoa(k))
+				} else {
+					set.Add("own-" + itoa(i) + "-" + itoa(k))
+				}
+			}
+		}(i)
+	}
+	wg.Wait()
+	atomic.StoreInt32(&stop, 1)
+	want := (n+1)/2 + g*(n/2)
+	seen := map[string]int{}
+	for _, v := range set.Data() {
+		seen[v]++
+	}
+	o.Reads = g * n
+	for v, k := range seen {
+		if k != 1 {
+			o.DupReads++
+			o.Example = "value " + v + " " + itoa(k) + " times in Data()"
+		}
+	}
+	if len(seen) != want || set.Len() != want {
+		o.Lost = want - len(seen)
+		if o.Lost == 0 {
+			o.Lost = want - set.Len()
+		}
+		o.Example += " " + itoa(want) + " distinct values added, Data() holds " + itoa(len(seen)) + ", Len() = " + itoa(set.Len())
+	}
+	emit(o)
+}
+
 func counter(c omapCase, m coll, emit func(interface{})) {
 	o := &stressObs{ID: c.ID, Kind: c.Kind}
 	g := c.Goroutines
@@ -488,6 +549,10 @@ func cmdOmap(line []byte, emit func(interface{})) {
 		return
 	}
 	emit(map[string]string{"begin": c.ID})
+	if c.Kind == "StringSet" {
+		stringSet(c, emit)
+		return
+	}
 	m := newColl(c.Kind)
 	if m == nil {
 		emit(map[string]string{"harness_error": "unknown collection " + c.Kind})
